@@ -55,7 +55,8 @@ impl Mp4Box for MoovBox {
     }
 
     fn to_json(&self) -> Result<String> {
-        Ok(serde_json::to_string(&self).unwrap())
+        serde_json::to_string(&self)
+            .map_err(|_| Error::InvalidData("moov box cannot be serialized"))
     }
 
     fn summary(&self) -> Result<String> {
